@@ -40,10 +40,12 @@ _CACHE = {}
 
 
 def mapped(name, ff_name):
-    """Coarse-grained molecules of one tier-0 structure: read_system, pdb_to_universal, DoMapping, DoLinks (real objects)."""
+    """Coarse-grained molecules of one tier-0 structure: read_system, pdb_to_universal, DoMapping, DoAverageBead, DoLinks
+    (real objects, the stages in the order of bin/martinize2)."""
     from pathlib import Path
     from . import c01_real
-    from vermouth.processors import DoMapping, DoLinks
+    from vermouth.processors import DoMapping, DoLinks, DoAverageBead
+    from vermouth.system import System
     key = (name, ff_name)
     if key in _CACHE:
         return _CACHE[key]
@@ -60,7 +62,11 @@ def mapped(name, ff_name):
         for mol in system.molecules:
             cg = DoMapping(maps, ffs[ff_name], attribute_keep=('cgsecstruct', 'chain', 'secstruct'), attribute_must=('resname',),
                            attribute_stash=('resid',)).run_molecule(mol)
-            out.append(DoLinks().run_molecule(cg))
+            one = System(force_field=ffs[ff_name])         # DoAverageBead reads the force field's bead-position rule
+            one.molecules = [cg]
+            DoAverageBead(ignore_missing_graphs=True).run_system(one)       # links may compute parameters from positions
+            DoLinks().run_system(one)
+            out.append(one.molecules[0])
     finally:
         vlog.setLevel(old)
     _CACHE[key] = out
@@ -284,9 +290,7 @@ def jobs(tier, seed, book):
     cases = QUICK_CASES if tier == 'quick' else QUICK_CASES + MORE_CASES
     nseeds = 3 if tier == 'quick' else 10
     out = [('real', case, [seed * 7919 + 31 * ci + s for s in range(nseeds)], book) for ci, case in enumerate(cases)]
-    if tier == 'quick':       # one history per worker (the force-field load of 5 s is paid in parallel)
-        out = [('real', case, [sd], book) for _, case, seeds, book in out for sd in seeds]
-    return out, 'histories of real pipeline molecules'
+    return out, 'histories of real pipeline molecules'          # one worker per case: force fields loaded once, one TLC run
 
 
 def finish(tier, sums, label, ev, vd):
